@@ -6,7 +6,7 @@ META = dict(
                        "pydra.compose.workflow.WorkflowTask.construct (per-object memo, re-assigned inputs)", "Workflow._create_graph / execution_graph (run operations)",
                        "pydra.engine.node.Node"],
     stubs=["vf/engine.py (run operations)", "the fresh construction used as oracle runs with an empty construction cache swapped in"],
-    outside=["histories longer than 4 operations", "more than two workflow inputs", "workflows with splitters"],
+    outside=["histories longer than 4 operations", "more than two workflow inputs", "workflows with splitters inside (split *tasks*, which run through an implicit workflow, are covered by h_split_history)"],
     assumptions=["two constructions are 'the same graph' when node names, every node's field values (lazy fields by kind, node and "
                  "field) and the workflow inputs agree"],
 )
@@ -42,6 +42,18 @@ def build(tier, seed, exclude):
     g.cond("h_permuted_values", "a: int, b: int, k: int", ["1 <= a <= 3 and 1 <= b <= 3 and a != b and 0 <= k <= 4"], """
         a, b, k = T.real((a, b, k))
         err = EN.c30([(k, a, b), (k, b, a), (4, a, b), (4, b, a)])
+        return T.fail(err) if err else True
+    """, timeout=to)
+    # split tasks (implicit workflow; with and without container_ndim) and a workflow that is invalid for some input values
+    g.cond("h_split_history", "k0: int, k1: int, k2: int, k3: int, a: int, b: int", ["0 <= k0 < 3 and 0 <= k1 < 3 and 0 <= k2 < 3 and 0 <= k3 < 3 and 1 <= a <= 2 and 1 <= b <= 2"], """
+        a, b = T.real((a, b))
+        kinds = [[7, 8, 4][T.real(k)] for k in (k0, k1, k2, k3)]
+        err = EN.c30([(kinds[0], a, b), (kinds[1], a, b), (kinds[2], b, a), (kinds[3], a, b)])
+        return T.fail(err) if err else True
+    """, timeout=to)
+    g.cond("h_invalid_construction_history", "k0: int, k1: int, k2: int, a0: int, a1: int, a2: int", ["0 <= k0 < 3 and 0 <= k1 < 3 and 0 <= k2 < 3 and 1 <= a0 <= 3 and 1 <= a1 <= 3 and 1 <= a2 <= 3"], """
+        kinds = [[9, 0, 9][T.real(k)] for k in (k0, k1, k2)]
+        err = EN.c30([(kinds[0], T.real(a0), 1), (kinds[1], T.real(a1), 1), (kinds[2], T.real(a2), 1)])
         return T.fail(err) if err else True
     """, timeout=to)
     # one task object used repeatedly with re-assigned inputs (the per-object construction memo)
